@@ -1,5 +1,206 @@
-(* stub, replaced below *)
-From Coq Require Import List Bool NArith.
-From MV Require Import Base.Bytes Model.DnsLayer.
-Theorem C27_stub : True. Proof. exact I. Qed.
-Print Assumptions C27_stub.
+(* Props/C27.v -- DNS replies correspond to client queries; TCP framing ignores segmentation.
+   Statements only.  The model (Model/DnsLayer.v) is DNSLayer with DNSMessage.unpack as a
+   parameter: every theorem holds for every unpack function.  cfg carries two booleans for the
+   proposed repairs; fix_fresh = fix_drop = false is mitmproxy as it is, and that is the model
+   the correspondence check runs on the unchanged tree.
+   s_cq / s_sm of the final state are the messages the layer extracted from the client / from
+   upstream, newest first. *)
+From Coq Require Import List Bool Arith NArith.
+From MV Require Import Base.Bytes Model.DnsLayer Proofs.DnsLayerFrame Proofs.DnsLayerSeg Proofs.DnsLayerInv Proofs.DnsLayerC27.
+Import ListNotations.
+
+(* ---- TCP framing ---- *)
+
+(* The extraction loop never runs out of fuel. *)
+Theorem C27_fuel_sufficient : forall unpack buf, unpack_tcp unpack buf <> RFuel.
+Proof. exact utcp_no_fuel. Qed.
+Print Assumptions C27_fuel_sufficient.
+
+(* Extraction from buffer ++ new data continues extraction from the buffer: messages are
+   appended, the first failure wins. *)
+Theorem C27_extraction_appends : forall unpack buf d,
+  unpack_tcp unpack (buf ++ d) = continue_with unpack (unpack_tcp unpack buf) d.
+Proof. exact utcp_app. Qed.
+Print Assumptions C27_extraction_appends.
+
+(* Segmentation independence at full strength (any two segmentations of any stream give the same
+   run) is FALSE of the code: unpack_message raises from inside its loop, so complete frames that
+   precede a malformed frame in the same segment are dropped unhandled, while in separate
+   segments they are handled first (finding tcp-error-discards-earlier-frames). *)
+Theorem C27_segmentation_refuted :
+  exists unpack c s fc a b,
+    working s /\ ctcp c = true /\
+    run unpack c s [EData fc a; EData fc b] <> run unpack c s [EData fc (a ++ b)].
+Proof. exact segmentation_refuted. Qed.
+Print Assumptions C27_segmentation_refuted.
+
+(* Under the complement (no malformed frame among the complete frames of the stream): from any
+   working state, with any buffered bytes, any non-empty list of segments from one side followed
+   by any further events gives exactly the same final state and the same commands as the
+   concatenation delivered at once. *)
+Theorem C27_segmentation_partial : forall unpack c fc chunks s ms r rest,
+  chunks <> [] -> working s -> ctcp c = true ->
+  unpack_tcp unpack (buf_of s fc ++ concat chunks) = ROk ms r ->
+  run unpack c s (map (EData fc) chunks ++ rest) = run unpack c s (EData fc (concat chunks) :: rest).
+Proof. exact segmentation_partial. Qed.
+Print Assumptions C27_segmentation_partial.
+
+(* A stream whose first failure is a zero length prefix or a frame rejected with struct.error
+   closes that connection and ends the layer (state_done), in every segmentation. *)
+Theorem C27_malformed_closes : forall unpack c fc chunks s rest,
+  chunks <> [] -> working s -> ctcp c = true ->
+  unpack_tcp unpack (buf_of s fc ++ concat chunks) = RErr ->
+  let r := run unpack c s (map (EData fc) chunks ++ rest) in
+  (exists pre, snd r = pre ++ [OClose fc]) /\ s_phase (fst r) = PDone.
+Proof. exact malformed_closes. Qed.
+Print Assumptions C27_malformed_closes.
+
+(* What is malformed: after complete good frames, a zero length prefix; a complete non-empty frame
+   that DNSMessage.unpack rejects (every frame shorter than a header is one); over UDP a rejected
+   datagram. *)
+Theorem C27_malformed_kinds : forall unpack,
+  (forall buf ms tail, unpack_tcp unpack buf = ROk ms [] ->
+     unpack_tcp unpack (buf ++ x00 :: x00 :: tail) = RErr)
+  /\ (forall buf ms h l body tail, unpack_tcp unpack buf = ROk ms [] ->
+     N.to_nat (u16be h l) = length body -> body <> [] -> unpack body = UStruct ->
+     unpack_tcp unpack (buf ++ h :: l :: body ++ tail) = RErr)
+  /\ (forall c s fc d, working s -> ctcp c = false -> unpack d = UStruct ->
+     snd (step unpack c s (EData fc d)) = [OClose fc] /\ s_phase (fst (step unpack c s (EData fc d))) = PDone).
+Proof. exact malformed_kinds. Qed.
+Print Assumptions C27_malformed_kinds.
+
+Theorem C27_done_is_silent : forall unpack c es s, s_phase s = PDone -> snd (run unpack c s es) = [].
+Proof. exact done_is_silent. Qed.
+Print Assumptions C27_done_is_silent.
+
+(* ---- replies and flows ---- *)
+
+(* Full statement: for every history, every hook shows a flow whose request is a query the client
+   sent (a response on it is set by an addon or is an upstream message with the id of that query), and every
+   reply sent to the client is a message an addon set, or has the id of a query the client sent
+   and is the SERVFAIL made from that query or an upstream message.  It is FALSE of the code
+   (finding unsolicited-reply): an upstream message whose id matches no query gets a flow without
+   request, a dns_response hook, and is sent to the client. *)
+Theorem C27_reply_answers_query_refuted :
+  exists unpack c script conn es,
+    fix_drop c = false /\
+    let r := run unpack c (init script conn) es in
+    (exists ord rs e, In (OHook HResp ord None rs e) (snd r))
+    /\ exists data, In (OSend true data) (snd r)
+         /\ ~ answers_query c script (s_cq (fst r)) (s_sm (fst r)) data.
+Proof. exact reply_refuted. Qed.
+Print Assumptions C27_reply_answers_query_refuted.
+
+(* Complement of the finding: histories in which no hook shows a flow without request (such a hook
+   is always the dns_response hook of an unsolicited upstream message, next theorem). *)
+Theorem C27_reply_answers_query_partial : forall unpack c script conn es,
+  let r := run unpack c (init script conn) es in
+  (forall k ord rs e, ~ In (OHook k ord None rs e) (snd r)) ->
+  (forall o, In o (snd r) -> carries_query script (s_cq (fst r)) (s_sm (fst r)) o)
+  /\ (forall data, In (OSend true data) (snd r) -> answers_query c script (s_cq (fst r)) (s_sm (fst r)) data).
+Proof. exact reply_partial. Qed.
+Print Assumptions C27_reply_answers_query_partial.
+
+Theorem C27_orphan_only_response : forall unpack c script conn es k ord rs e,
+  In (OHook k ord None rs e) (snd (run unpack c (init script conn) es)) -> fix_drop c = false /\ k = HResp.
+Proof. exact orphan_only_response. Qed.
+Print Assumptions C27_orphan_only_response.
+
+(* With the proposed repair (fixes/C27-unsolicited-reply.diff) the full statement holds for all
+   histories. *)
+Theorem C27_reply_answers_query_fixed : forall unpack c script conn es,
+  fix_drop c = true ->
+  let r := run unpack c (init script conn) es in
+  (forall o, In o (snd r) -> carries_query script (s_cq (fst r)) (s_sm (fst r)) o)
+  /\ (forall data, In (OSend true data) (snd r) -> answers_query c script (s_cq (fst r)) (s_sm (fst r)) data).
+Proof. exact reply_fixed. Qed.
+Print Assumptions C27_reply_answers_query_fixed.
+
+(* Question section of forwarded replies: replies are matched by id only, so an upstream reply
+   with another question is forwarded (finding upstream-question-mismatch) ... *)
+Theorem C27_reply_question_refuted :
+  exists unpack c script conn es m,
+    let r := run unpack c (init script conn) es in
+    (forall k ord rs e, ~ In (OHook k ord None rs e) (snd r))
+    /\ In (OSend true (pack_message m (ctcp c))) (snd r) /\ In m (s_sm (fst r))
+    /\ forall q, In q (s_cq (fst r)) -> m_qs q <> m_qs m.
+Proof. exact question_refuted. Qed.
+Print Assumptions C27_reply_question_refuted.
+
+(* ... and when upstream echoes the question of the queries carrying its id, every reply that is
+   not set by an addon has the id and the question section of a query the client sent. *)
+Theorem C27_reply_question_partial : forall unpack c script conn es,
+  let r := run unpack c (init script conn) es in
+  (forall k ord rs e, ~ In (OHook k ord None rs e) (snd r)) ->
+  (forall m, In m (s_sm (fst r)) -> forall q, In q (s_cq (fst r)) -> m_id q = m_id m -> m_qs q = m_qs m) ->
+  forall data, In (OSend true data) (snd r) ->
+  exists m, data = pack_message m (ctcp c) /\
+    (addon_msg script m \/ exists q, In q (s_cq (fst r)) /\ m_id q = m_id m /\ m_qs q = m_qs m).
+Proof. exact question_partial. Qed.
+Print Assumptions C27_reply_question_partial.
+
+(* ---- SERVFAIL ---- *)
+
+(* In every run from every state, each dns_error hook shows a flow with a request and is directly
+   followed by the SERVFAIL made from that request, packed for the transport of the client. *)
+Theorem C27_servfail_follows_error : forall unpack c es s, servfail_ok (ctcp c) (snd (run unpack c s es)).
+Proof. exact run_servfail. Qed.
+Print Assumptions C27_servfail_follows_error.
+
+(* DNSMessage.fail keeps id, opcode, RD and the questions; it is a response with rcode 2 and no
+   records; on the wire it starts with the id of the query. *)
+Theorem C27_servfail_keeps_fields : forall q,
+  m_id (fail q) = m_id q /\ m_query (fail q) = false /\ m_op (fail q) = m_op q
+  /\ m_rd (fail q) = m_rd q /\ m_qn (fail q) = m_qn q /\ m_qs (fail q) = m_qs q
+  /\ m_packed (fail q) =
+       put_u16be (m_id q) ++ put_u16be (32768 + m_op q * 2048 + (if m_rd q then 256 else 0) + 2)%N
+       ++ put_u16be (m_qn q) ++ [x00; x00; x00; x00; x00; x00] ++ m_qs q.
+Proof. exact fail_fields. Qed.
+Print Assumptions C27_servfail_keeps_fields.
+
+Theorem C27_servfail_wire_id : forall q, (m_id q < 65536)%N ->
+  exists h l rest, m_packed (fail q) = h :: l :: rest /\ u16be h l = m_id q.
+Proof. exact fail_wire_id. Qed.
+Print Assumptions C27_servfail_wire_id.
+
+(* ---- a reply must come from upstream or from an addon, not from an earlier exchange ---- *)
+
+(* FALSE of the code (finding stale-response-replayed): flows stay in the map, so a client query
+   re-using the id of a completed exchange triggers dns_response with the old response, which is
+   sent to the client; upstream is not asked. *)
+Theorem C27_no_stale_replay_refuted :
+  exists unpack c script conn es data,
+    fix_fresh c = false /\
+    let s := fst (run unpack c (init script conn) es) in
+    ~ resp_hooks_from (s_script s) (snd (step unpack c s (EData true data))).
+Proof. exact stale_refuted. Qed.
+Print Assumptions C27_no_stale_replay_refuted.
+
+(* Complement: the id of the query is new or its flow has neither response nor error; then, in any
+   state, a response hook while the query is handled shows exactly a response the addons set. *)
+Theorem C27_no_stale_replay_partial : forall c s m,
+  id_unanswered s m ->
+  resp_hooks_from (s_script s) (snd (handle_msg c true s m)).
+Proof. exact stale_partial. Qed.
+Print Assumptions C27_no_stale_replay_partial.
+
+(* With the proposed repair (fixes/C27-stale-response-replayed.diff): for every state and every
+   client segment. *)
+Theorem C27_no_stale_replay_fixed : forall c unpack s data,
+  fix_fresh c = true ->
+  resp_hooks_from (s_script s) (snd (step unpack c s (EData true data))).
+Proof. exact step_client_fresh. Qed.
+Print Assumptions C27_no_stale_replay_fixed.
+
+(* ---- hypotheses are satisfiable on non-trivial values ---- *)
+Theorem C27_nonvacuous :
+  let chunks := [[x00]; [x01; x01; x00]; [x01; x02]] in
+  let s := init [] [true] in
+  working s /\ ctcp ct = true
+  /\ unpack_tcp wunpack (buf_of s true ++ concat chunks) = ROk [q1; q1b] []
+  /\ run wunpack ct s (map (EData true) chunks) = run wunpack ct s [EData true (concat chunks)]
+  /\ length (snd (run wunpack ct s (map (EData true) chunks))) = 5
+  /\ (forall k ord rs e, ~ In (OHook k ord None rs e) (snd (run wunpack cu s [EData true [x01]; EData false [x03]])))
+  /\ In (OSend true [x03]) (snd (run wunpack cu s [EData true [x01]; EData false [x03]])).
+Proof. exact nonvacuous. Qed.
+Print Assumptions C27_nonvacuous.
